@@ -1192,11 +1192,19 @@ Definition is_compact_entry (r : registry) (id : N) : bool :=
   | None => false
   end.
 
+Definition is_box_pty (t : pty) : bool :=
+  match t with
+  | PPath true segs => String.eqb (last (map fst segs) "") "Box" &&
+                       match removelast (map fst segs) with _ :: _ => String.eqb (last (removelast (map fst segs)) "") "boxed" | [] => false end
+  | _ => false
+  end.
 Definition compact_markers_ok (r : registry) (codec : bool) (t : ty) (fs : list field) (pfs : list pfield) : bool :=
   let pfs := filter (fun f => negb (is_marker_field f)) pfs in
   Nat.eqb (List.length fs) (List.length pfs) &&
   forallb (fun fp : field * pfield =>
              let marked := has_attr compact_attr_toks (pf_attrs (snd fp)) in
+             (* F21: the marker needs the bare type - `#[codec(compact)] Box<u32>` does not compile *)
+             (if marked then negb (is_box_pty (pf_ty (snd fp))) else true) &&
              if codec then
                if param_typed t (fst fp) then negb marked
                else Bool.eqb marked (is_compact_entry r (f_ty (fst fp)))
@@ -1207,12 +1215,6 @@ Definition compact_markers_ok (r : registry) (codec : bool) (t : ty) (fs : list 
     type has the registry's field names in order, a compact marker exactly on the fields whose
     registry type is a Compact entry (codec on; none with codec off), and a Box exactly on the fields
     the generator boxes (recorded type name) *)
-Definition is_box_pty (t : pty) : bool :=
-  match t with
-  | PPath true segs => String.eqb (last (map fst segs) "") "Box" &&
-                       match removelast (map fst segs) with _ :: _ => String.eqb (last (removelast (map fst segs)) "") "boxed" | [] => false end
-  | _ => false
-  end.
 Definition prop_standalone_registry (c : tg_case) : bool :=
   let r := tg_reg c in
   let s := settings_of (tg_spec c) in
@@ -1231,7 +1233,11 @@ Definition prop_standalone_registry (c : tg_case) : bool :=
                          Nat.eqb (List.length fs) (List.length pfs) &&
                          forallb (fun fp : field * pfield =>
                                     option_eqb String.eqb (f_name (fst fp)) (pf_name (snd fp)) &&
-                                    Bool.eqb (is_boxed_gen (fst fp)) (is_box_pty (pf_ty (snd fp))))
+                                    (* a Box only on fields the generator boxes; a boxed field that is
+                                       not compact must have it (F21: compact fields lose the wrapper) *)
+                                    (if is_box_pty (pf_ty (snd fp)) then is_boxed_gen (fst fp) else true) &&
+                                    (if is_boxed_gen (fst fp) && negb (is_compact_entry r (f_ty (fst fp)))
+                                     then is_box_pty (pf_ty (snd fp)) else true))
                                  (combine fs pfs)
                      end
                  end
